@@ -7,6 +7,7 @@ from, and the source of every record data file.
 Oracle (implementation only): union / first-wins / skip / absence laws checked directly on the merged object, merged files
 byte-compared with the first source, inputs deep-compared before and after.
 """
+import copy
 import json
 import os
 import random
@@ -158,7 +159,21 @@ def _run_real(case):
         if merged is not None:
             md = kgen.describe(merged)
             res['merged'] = md
-            res['merged_digests'] = mc.feature_file_digests(merged_path, md)
+            md_files = md
+            if case['via_tool'] and inputs_desc:
+                # files that were transferred but are not listed by the reload (see listed_after_reload) are looked up too
+                md_files = copy.deepcopy(md)
+                for d in inputs_desc:
+                    for kind in mc.FEAT_KINDS:
+                        for t, v in (d[kind] or {}).items():
+                            if md_files[kind] is not None:
+                                md_files[kind].setdefault(t, dict(v, images=[]))
+                                md_files[kind][t]['images'] = sorted(set(md_files[kind][t]['images']) | set(v['images']))
+                    for t, pairs in (d['matches'] or {}).items():
+                        if md_files['matches'] is not None:
+                            md_files['matches'].setdefault(t, [])
+                            md_files['matches'][t] = sorted({tuple(p) for p in md_files['matches'][t]} | {tuple(p) for p in pairs})
+            res['merged_digests'] = mc.feature_file_digests(merged_path, md_files)
             res['merged_rec'] = mc.record_file_digests(merged_path, md)
         return res
     finally:
@@ -218,7 +233,7 @@ def compare(case, io, mo):
         for t in m:
             if m[t]['config'] != i[t]['config']:
                 return f'{kind}/{t} config: impl {i[t]["config"]} model {m[t]["config"]}'
-            if sorted(n for n, _ in m[t]['images']) != i[t]['images']:
+            if sorted(n for n, _ in m[t]['images'] if listed_after_reload(case, r['merged'], kind, n)) != i[t]['images']:
                 return f'{kind}/{t} images: impl {i[t]["images"]} model {m[t]["images"]}'
             for name, src in m[t]['images']:
                 want = r['in_digests'][src].get(kind, {}).get(t, {}).get(name)
@@ -232,7 +247,7 @@ def compare(case, io, mo):
         if sorted(mm) != sorted(im):
             return f'match types: impl {sorted(im)} model {sorted(mm)}'
         for t in mm:
-            if sorted([a, b] for a, b, _ in mm[t]) != im[t]:
+            if sorted([a, b] for a, b, _ in mm[t] if listed_after_reload(case, r['merged'], 'matches', a + '|' + b)) != im[t]:
                 return f'matches/{t}: impl {im[t]} model {mm[t]}'
             for a, b, src in mm[t]:
                 want = r['in_digests'][src].get('matches', {}).get(t, {}).get(a + '|' + b)
@@ -254,6 +269,20 @@ def compare(case, io, mo):
                 if want != got:
                     return f'{part}/{name}: merged file {got}, model says input {src} ({want})'
     return None
+
+
+def listed_after_reload(case, md, kind, nme):
+    """ Through the command-line tool the merged dataset is observed by RELOADING the written directory, and the loader
+    (C04) lists a feature / match file only if its image(s) are records of the merged dataset. When two inputs hold different
+    image names under one (timestamp, camera) key, first-wins on the records leaves the later input's image without a
+    record: its feature files are still transferred (checked through the digests) but are not listed after the reload. """
+    if not case['via_tool']:
+        return True
+    imgs = {row[2] for row in (md['records_camera'] or [])}
+    if kind == 'matches':
+        a, b = nme.split('|')
+        return a in imgs and b in imgs
+    return nme in imgs
 
 
 # ---------------------------------------------------------------------------------------------------- oracle
@@ -308,7 +337,7 @@ def oracle(case):
         for t, v in (md[kind] or {}).items():
             names = [a + '|' + b for a, b in v] if kind == 'matches' else v['images']
             got |= {(t, nme) for nme in names}
-        if got != set(expect):
+        if got != {k for k in expect if listed_after_reload(case, md, kind, k[1])}:
             return {'signature': 'feature-union:' + kind, 'detail': f'{kind}: lost {sorted(set(expect) - got)[:3]} '
                     f'extra {sorted(got - set(expect))[:3]}'}
         for (t, nme), src in expect.items():
